@@ -956,7 +956,15 @@ class FunctionVerifier:
         ik = z3.Select(nested_select(io.comps["v"], iv.prefix), k)
         if prog:
             self.oblige("index-in-bounds", self.stmt_anchor(node), z3.ForAll([k], z3.Implies(z3.And(k >= 0, k < ishp[0]), z3.And(ik >= 0, ik < bshp[0]))), st, node)
-        comps = {c: z3.Lambda([k], z3.Select(nested_select(t, base.prefix), ik)) for c, t in bo.comps.items()}
+        # fully eta-expanded over the remaining axes (lambda a, c: base[idx[a]][c]): the same term shape as the
+        # arr2(...) values used in specifications, so that no solver has to discover extensionality of nested arrays
+        inner = [z3.Int("gather!c%d" % d) for d in range(1, len(bshp))]
+        comps = {}
+        for c, t in bo.comps.items():
+            body = nested_select(z3.Select(nested_select(t, base.prefix), ik), inner)
+            for v_ in reversed(inner):
+                body = z3.Lambda([v_], body)
+            comps[c] = z3.Lambda([k], body)
         return self.new_loc(st, bo.dtype, [ishp[0]] + list(bshp[1:]), comps, name="gather")
 
     def slice_view(self, st, base, elts, node, prog):
@@ -1662,6 +1670,47 @@ class FunctionVerifier:
         if not self.ghost_mode or len(node.items) != 1:
             raise VerifError("with statement")
         ce = node.items[0].context_expr
+        if isinstance(ce, ast.Call) and isinstance(ce.func, ast.Name) and ce.func.id == "generalize" and len(ce.args) >= 2:
+            # with generalize(P(args), k1, k2, ...): <proof>
+            #   P is an inline spec whose body is forall_arrN(lambda X1, X2, ...: B).  Fresh arrays k1, k2, ... are
+            #   introduced, the proof block runs, B[X := k] is checked, and then P(args) itself is assumed
+            #   (forall-introduction): the assumed formula is literally the one a later goal P(args) evaluates to.
+            call = ce.args[0]
+            if not (isinstance(call, ast.Call) and isinstance(call.func, ast.Name) and call.func.id in self.E.db.specs):
+                raise VerifError("generalize expects an inline spec application")
+            sd = self.E.db.specs[call.func.id]
+            if not getattr(sd, "inline", False) or len(sd.body) != 1 or not isinstance(sd.body[0], ast.Return):
+                raise VerifError("generalize: spec must be inline with a single return")
+            q = sd.body[0].value
+            if not (isinstance(q, ast.Call) and isinstance(q.func, ast.Name) and q.func.id in ("forall_arr1", "forall_arr2")):
+                raise VerifError("generalize: the spec body must be forall_arr1/2")
+            nd_ = 1 if q.func.id == "forall_arr1" else 2
+            lam = q.args[0]
+            names = [a_.id for a_ in ce.args[1:]]
+            if len(names) != len(lam.args.args):
+                raise VerifError("generalize: one name per bound array")
+            argvals = [self.ev(a_, st, False) for a_ in call.args]
+            s2 = st.fork()
+            fresh = {}
+            for nm in names:
+                gv = SArrVal("i8", [z3.IntVal(0)] * nd_, {"v": self.fresh(nm, arr_sort(I, nd_))})
+                fresh[nm] = gv
+                s2.env[nm] = gv
+            for s3 in self.run_ghost(node.body, s2):
+                sp = State()
+                sp.old = s3.old
+                sp.funcs = s3.funcs
+                sp.assumes = s3.assumes
+                sp.guards = list(s3.guards)
+                sp.heap = s3.heap
+                for v_, (pn, ty) in zip(argvals, sd.params):
+                    sp.env[pn] = self.E.spec_param_value(self, s3, v_, ty)
+                for la, nm in zip(lam.args.args, names):
+                    sp.env[la.arg] = fresh[nm]
+                g = self.to_bool(self.ev(lam.body, sp, False))
+                self.oblige("ghost-assert", "generalize " + ast.unparse(call)[:40], g, s3, node)
+            st.assume(self.to_bool(self.E.spec_app(self, st, sd, argvals)))
+            return [(st, FALL)]
         if isinstance(ce, ast.Call) and isinstance(ce.func, ast.Name) and ce.func.id == "forall_intro_arr1" and len(ce.args) == 2 and isinstance(ce.args[0], ast.Name):
             # with forall_intro_arr1(g, body): <proof>   -- g ranges over all 1-D integer arrays
             name = ce.args[0].id
